@@ -1123,11 +1123,14 @@ impl BreakpointRegistry {
     pub fn enable_all_breakpoints(&mut self, debugee: &Debugee) -> Vec<Error> {
         let mut errors = vec![];
         let mut disabled_breakpoints = mem::take(&mut self.disabled_breakpoints);
-        for (_, uninit_brkpt) in disabled_breakpoints.drain() {
-            let brkpt = match uninit_brkpt.try_into_brkpt(debugee) {
+        for (addr, uninit_brkpt) in disabled_breakpoints.drain() {
+            let brkpt = match uninit_brkpt.clone().try_into_brkpt(debugee) {
                 Ok(b) => b,
                 Err(e) => {
                     errors.push(e);
+                    // the code of this breakpoint is not mapped (yet), e.g. a library that will
+                    // be loaded later: keep the breakpoint, it is tried again at the next library load
+                    self.disabled_breakpoints.insert(addr, uninit_brkpt);
                     continue;
                 }
             };
